@@ -14,7 +14,8 @@ EXPLANATION = ("D1 scope = envelope elements in contact with outside air; D2 A_o
                "with a test value n50 = test and C_o solved from the same equation (guarded), otherwise n50 = n50_ref and C_o = reference")
 DECIDED = ["D1 scope predicate", "D2 accumulators", "D3 C_o table and volume", "D4 forward and inverse formulas and their guards",
            "D6 accumulation loops end only on iterator exhaustion",
-           "D7 V counts every space: the floor area is found from either side (shared with C11)"]
+           "D7 V counts every space: the floor area is found from either side (shared with C11)",
+           "D8 every path to a return of N50Data::from passes through the assignment of n50"]
 UNDECIDED = ["numeric agreement on real models"]
 ASSUMPTIONS = ["0.629 = (50/100)^0.67 as in DB-HE"]
 LEVEL_TEXT = ("Translation validation: the scope filter is evaluated on all 8 combinations of (envelope membership, boundary kind); each accumulator update and each "
